@@ -623,6 +623,20 @@ theorem pulled_config_replaces_document_or_changes_nothing {env : Env} {s : Stat
   · right
     exact change_rejected hi underConfig_cfg (fun h => hacc (Or.inl h)) (fun h => hacc (Or.inr h))
 
+/-- **after a pulled config the id index is that of the document in place** (and the other
+    globals agree with it too): `indexConfigObjects` runs for a pulled config as for a pushed
+    one, so /id/ never resolves through the index of the replaced document. -/
+theorem pulled_config_keeps_index_in_step {env : Env} {s : State} (h : Reachable env s) (config : Body) :
+    cfgOf (pulledConfig env config s).1.rawCfg = encodeOf (pulledConfig env config s).1.rawCfgJSON ∧
+    (∀ j, (pulledConfig env config s).1.rawCfgJSON = some j →
+      indexJ j (slash :: cfgKey) = some (pulledConfig env config s).1.index) := by
+  have hi : Inv (pulledConfig env config s).1 := change_inv (reachable_inv h) underConfig_cfg
+  refine ⟨hi.doc, ?_⟩
+  intro j hj
+  have := hi.idx
+  rw [hj] at this
+  exact this
+
 /-! ### an object tagged with @id is reachable under /id/ as that same object -/
 
 /-- the tagged object at position `segs` of the loaded document `j`, indexed under `t`, can
